@@ -4,9 +4,13 @@ import json, os, glob
 V = os.path.dirname(os.path.dirname(os.path.abspath(__file__)))
 props = [json.loads(l)["id"] for l in open(os.path.join(V, "properties.jsonl")) if l.strip()]
 checks, claimed = [], set()
+pending_path = os.path.join(V, "checks", "meta", "_pending.txt")
+pending = set(open(pending_path).read().split()) if os.path.exists(pending_path) else set()
 for p in sorted(glob.glob(os.path.join(V, "checks", "meta", "C*.json"))):
     m = json.load(open(p))
     pid = m["property_id"]
+    if pid in pending:
+        continue   # machinery being built/verified; not claimed yet
     claimed.add(pid)
     m.setdefault("quick_cmd", "./check %s --tier quick" % pid)
     m.setdefault("thorough_cmd", "./check %s --tier thorough" % pid)
